@@ -218,6 +218,8 @@ def run_check(prop_id: str, tier: str, *, base_seed: int | None = None, budget_s
     os.makedirs(os.path.join(VERIF, "build", "logs"), exist_ok=True)
     logpath = os.path.join(VERIF, "build", "logs", f"{prop_id}-{tier}-{os.getpid()}.log")
     hashseeds = HASHSEEDS[tier]
+    # every hash-seed class needs a template of its own (a class without one would never be served)
+    jobs = max(jobs, len(hashseeds))
     findings = load_findings()
     pool = Pool(jobs, hashseeds, logpath)
     run_timeout = prop.RUN_TIMEOUT_S[tier]
